@@ -28,11 +28,11 @@ func init() {
 }
 
 type c02Scn struct {
-	Suite    ref.Suite `json:"suite"`
-	WrongPw  bool      `json:"wrong_pw"`
-	WrongKG  bool      `json:"wrong_kg"`
-	Reduced  bool      `json:"reduced"` // reduced mutation alphabet (k=2)
-	UseKG    bool      `json:"use_kg"`
+	Suite   ref.Suite `json:"suite"`
+	WrongPw bool      `json:"wrong_pw"`
+	WrongKG bool      `json:"wrong_kg"`
+	Reduced bool      `json:"reduced"` // reduced mutation alphabet (k=2)
+	UseKG   bool      `json:"use_kg"`
 	// SecondReduced: the full alphabet applies until one mutation has been made,
 	// then the reduced one (k=2 over full x reduced)
 	SecondReduced bool `json:"second_reduced,omitempty"`
@@ -46,8 +46,8 @@ type c02Scn struct {
 	// first holds the password the BMC knows and is used for a session to
 	// another BMC, then it is overwritten in place with the caller's (different)
 	// password for the handshake under test
-	BufReuse bool `json:"buf_reuse,omitempty"`
-	Username string    `json:"username"`
+	BufReuse bool   `json:"buf_reuse,omitempty"`
+	Username string `json:"username"`
 }
 
 type c02Replay struct {
@@ -507,11 +507,14 @@ func runC02(r *rep.R) {
 			// full alphabet for the first mutation, reduced for the second
 			scn = c02Scn{Suite: s, Username: "admin", SecondReduced: true}
 			c02Explore(r, scn, 2, &idx)
+			// and the full alphabet for both
+			scn = c02Scn{Suite: s, Username: "admin"}
+			c02Explore(r, scn, 2, &idx)
 		}
 	}
 	r.Bound("deviations_quick", 1)
 	if thorough(r) {
-		r.Bound("deviations_thorough", "2 over the reduced alphabet, 1 over the full alphabet")
+		r.Bound("deviations_thorough", "2 over the full alphabet (correct transcript), 2 over the reduced alphabet (wrong password)")
 	}
 	r.Bound("attempt_horizon", 4)
 	r.Assume("a mutated reply is repeated for every retransmission of the same payload (sticky), and the caller's context expires after 4 attempts of one payload")
